@@ -616,8 +616,24 @@ deriving DecidableEq, Repr
 /-- group by ID in first-appearance order is a dict; every consumer iterates `sorted(rules)`,
     so the model returns the components regrouped by ascending ID (stable inside an ID).
     Operator groups of one ID are merged into one list (`rules.setdefault(what, []).append`). -/
-def regroupOps (id : Nat) (cs : List RawComp) : List RawTerm :=
-  cs.flatMap (fun c => match c with | .ops t ts => if t = id then ts else [] | _ => [])
+def opsOf (id : Nat) (c : RawComp) : List RawTerm :=
+  match c with | .ops t ts => if t = id then ts else [] | _ => []
+
+/-- `_parse_operations` clears the AND bit of the first operator of every component it parses -/
+def clearAnd (t : RawTerm) : RawTerm := { t with op := t.op - t.op / 64 % 2 * 64 }
+def clearHead : List RawTerm → List RawTerm
+  | [] => []
+  | t :: ts => clearAnd t :: ts
+
+/-- the operators stored under `id`: those of its first occurrence (whose head `exaStoredOp … first`
+    clears at delivery), then those of every later occurrence — an NLRI that repeats a component
+    type is not RFC 8955, but the code merges it — each with the AND bit of ITS first operator
+    cleared as well. -/
+def regroupOps (id : Nat) : List RawComp → List RawTerm
+  | [] => []
+  | c :: cs =>
+    if (opsOf id c).isEmpty then regroupOps id cs
+    else opsOf id c ++ cs.flatMap (fun d => clearHead (opsOf id d))
 
 def regroup (cs : List RawComp) : List RawComp :=
   allIds.flatMap (fun id =>
